@@ -31,6 +31,7 @@ type c05Case struct {
 	RespSpin int    `json:"resp_spin_max"`
 	Seed     int64  `json:"seed"`
 	FailAt   int    `json:"targeter_fails_from_call,omitempty"` // >0: the targeter reports ErrNoTargets from this call on (the attack stops itself)
+	ErrEvery int    `json:"transport_error_every,omitempty"`    // >0: every n-th round trip ends (after its work) with EOF, a reset, a timeout ...
 }
 
 type c05Witness struct {
@@ -49,7 +50,7 @@ func runC05Case(run *ev.Run, cs c05Case) {
 	base := time.Now()
 	p := &recPacer{base: base}
 	p.decide = func(i int, _ time.Duration, _ uint64) (time.Duration, bool) { return 0, i >= cs.Hits }
-	rt := &recTransport{base: base}
+	rt := &recTransport{base: base, errEvery: int64(cs.ErrEvery)}
 	if cs.RespSpin > 0 {
 		rt.work = func(n int64) { spin(int(uint64(n)*2654435761) % cs.RespSpin) }
 	}
@@ -108,8 +109,21 @@ func runC05Case(run *ev.Run, cs c05Case) {
 	run.Count("attacks", 1)
 	run.Count("results", int64(len(got)))
 
+	// per sequence number: the first entry into the transport, the last exit, the time spent inside
 	entry := make(map[uint64]entryRec, len(rt.entries))
+	inside := make(map[uint64]time.Duration, len(rt.entries))
+	trips := make(map[uint64]int, len(rt.entries))
 	for _, e := range rt.entries {
+		inside[e.Seq] += e.TExit - e.TEntry
+		trips[e.Seq]++
+		if old, ok := entry[e.Seq]; ok {
+			if old.TEntry < e.TEntry {
+				e.TEntry = old.TEntry
+			}
+			if old.TExit > e.TExit {
+				e.TExit = old.TExit
+			}
+		}
 		entry[e.Seq] = e
 	}
 	arrival := append([]*vegeta.Result{}, got...)
@@ -159,8 +173,8 @@ func runC05Case(run *ev.Run, cs c05Case) {
 			viol("timestamp-after-transport-entry", "free-running", fmt.Sprintf("seq %d timestamp %v is after its request reached the transport at %v", r.Seq, ts, e.TEntry), r, nil)
 			break
 		}
-		if r.Latency < 0 || r.Latency < e.TExit-e.TEntry {
-			viol("latency-too-small", "free-running", fmt.Sprintf("seq %d latency %v, the transport alone took %v", r.Seq, r.Latency, e.TExit-e.TEntry), r, nil)
+		if r.Latency < 0 || r.Latency < inside[r.Seq] {
+			viol("latency-too-small", "free-running", fmt.Sprintf("seq %d latency %v, the transport alone took %v (in %d round trips)", r.Seq, r.Latency, inside[r.Seq], trips[r.Seq]), r, nil)
 			break
 		}
 		if ts+r.Latency > tEnd {
@@ -377,6 +391,13 @@ func runC05(c *Ctx) int {
 			logCase(string(b))
 			runC05Case(run, cs)
 		}
+		for i := 0; i < 2; i++ { // attacks in which exchanges fail the way real ones do (EOF, reset, timeout, refused)
+			cs := c05Case{Workers: ws[rng.Intn(len(ws)-1)], Hits: 20000, TgtSpin: []int{0, 64}[i], RespSpin: []int{200, 2000}[i], Seed: rng.Int63(), ErrEvery: 3 + rng.Intn(5)}
+			b, _ := json.Marshal(cs)
+			logCase(string(b))
+			runC05Case(run, cs)
+			run.Count("attacks_with_failing_exchanges", 1)
+		}
 		for i := 0; i < 2; i++ { // attacks that end because the targeter runs dry while many hits are in flight
 			cs := c05Case{Workers: ws[rng.Intn(len(ws)-1)], Hits: 20000, TgtSpin: []int{0, 64}[i], Seed: rng.Int63(), FailAt: 200 + rng.Intn(6000)}
 			b, _ := json.Marshal(cs)
@@ -436,6 +457,7 @@ func runC05(c *Ctx) int {
 	run.Floor("cli_attacks", int64(c.Pick(3, 14)))
 	run.Floor("attacks", int64(shards*per*9/10))
 	run.Floor("results_of_hits_whose_targeter_call_failed", int64(shards))
+	run.Floor("attacks_with_failing_exchanges", int64(shards))
 	run.Floor("results", int64(shards*per*20000*9/10))
 	run.Floor("results_arriving_out_of_seq_order", 1000)
 	run.Floor("real_transport_hits_ok", int64(shards*2*150/2))
